@@ -13,6 +13,7 @@ import (
 	"strconv"
 	"strings"
 	"sync"
+	"sync/atomic"
 	"time"
 
 	"ssvharness/internal/common"
@@ -216,6 +217,9 @@ func init() {
 
 var dumpOnce sync.Once
 
+// hangs counts the cases cut by the watchdog in this run.
+var hangs atomic.Int64
+
 // runImpl plays the case against the real proxy server: client <-pipe-> HandleStream/Proceed <-> origin.
 func runImpl(c *Case) *Obs {
 	obs := &Obs{}
@@ -408,9 +412,14 @@ func runImpl(c *Case) *Obs {
 
 	done := make(chan struct{})
 	go func() { wg.Wait(); close(done) }()
+	wd := watchdog
+	if hangs.Load() >= 2 { // hanging is established: the generous limit is only needed to avoid a false first verdict
+		wd = min(watchdog, 10*time.Second)
+	}
 	select {
 	case <-done:
-	case <-time.After(watchdog):
+	case <-time.After(wd):
+		hangs.Add(1)
 		obsMu.Lock()
 		obs.Hang = true
 		obsMu.Unlock()
@@ -611,7 +620,8 @@ func runOrigin(c *Case, oc netio.Conn, obs *Obs, obsMu *sync.Mutex) {
 			for ; j < len(s.Resps); j++ {
 				b := s.Resps[j].wire(method)
 				if c.OriginCloseAfter == k && c.OriginCut >= 0 && j == len(s.Resps)-1 {
-					if c.OriginCut >= len(b) {
+					// (a body delimited by close cannot be cut short observably: any prefix of it is a complete response)
+					if c.OriginCut >= len(b) || (s.Resps[j].Body.Kind == "eof" && s.Resps[j].Garbage == "") {
 						send(k, j, b)
 					} else {
 						oc.Write(b[:c.OriginCut])
